@@ -526,7 +526,17 @@ func computeAttrFunction(computer *ComputedStyle, values pr.AttrData) (out pr.Co
 
 	var prop pr.InnerContent
 	attrValue := node.Get(attrName)
-	if attrValue == "" && fallback != nil {
+	useFallback := attrValue == "" && fallback != nil
+	if useFallback && typeOrUnit == "url" {
+		// the fallback of a url is a url too, resolved like the attribute
+		// ("about:invalid" when none is given)
+		s, ok := fallback.(pr.String)
+		if !ok {
+			return out, fmt.Errorf("fallback type not supported : %T", fallback)
+		}
+		attrValue, useFallback = string(s), false
+	}
+	if useFallback {
 		atrValue_, ok := fallback.(pr.InnerContent)
 		if !ok {
 			return out, fmt.Errorf("fallback type not supported : %T", fallback)
